@@ -86,6 +86,13 @@ def system(R, rng, tier):
     for it in range(n):
         sub = os.path.join(d, "r%d" % it)
         os.makedirs(sub)
+        # the scanned directory is named so that relative file names start with a character spreadsheets, shells or formats
+        # treat specially ("." yields ./name)
+        tdir = rng.choice([".", ".", "@vendor", "+extras", "=staging", "'q", "<b>"])
+        top = sub
+        if tdir != ".":
+            sub = os.path.join(sub, tdir)
+            os.makedirs(sub)
         names = []
         for k in range(rng.randint(1, 3)):
             stem = rng.choice(["mod", "a b", "x&y", "q'uote", "lt<gt>", "ünï", "semi;colon", "com,ma", "hash#", "pct%41", "plus+", "brace{msg}"])
@@ -108,8 +115,8 @@ def system(R, rng, tier):
             names.append("broken_<&>.py")
         agg = rng.choice(["file", "vuln"])
         ctx = rng.choice([0, 1, 3, 10])
-        base = climain.run_main(["-q", "-r", "-f", "json", "-a", agg, "-n", str(ctx), "."], cwd=sub)
-        inp = {"files": names, "aggregate": agg, "context_lines": ctx}
+        base = climain.run_main(["-q", "-r", "-f", "json", "-a", agg, "-n", str(ctx), tdir], cwd=top)
+        inp = {"files": names, "aggregate": agg, "context_lines": ctx, "target": tdir}
         pj = reports.parse("json", base["stdout"])
         if base["exception"] or not pj["wellformed"]:
             R.violations.append({"what": "JSON report not produced / not well-formed", "input": inp, "observed": base["exception"] or pj.get("error"), "signature": None})
@@ -129,9 +136,9 @@ def system(R, rng, tier):
         ident = lambda r: (r["test_id"], os.path.normpath(r["filename"]), r["line"], r["severity"], r["confidence"], r["text"])
         want = sorted(ident(r) for r in J)
         for fmt in formats:
-            out = os.path.join(sub, "report.out")
+            out = os.path.join(top, "report.out")
             extra = ["--msg-template", "{relpath}|{line}|{test_id}|{severity}|{confidence}|{msg}"] if fmt == "custom" else []
-            r = climain.run_main(["-q", "-r", "-f", fmt, "-a", agg, "-n", str(ctx), "-o", out] + extra + ["."], cwd=sub)
+            r = climain.run_main(["-q", "-r", "-f", fmt, "-a", agg, "-n", str(ctx), "-o", out] + extra + [tdir], cwd=top)
             R.case(("sys", it, fmt), sample=dict(inp, format=fmt, exit=r["exit"], records=len(J)))
             R.count("format:" + fmt)
             if r["exception"]:
@@ -204,7 +211,36 @@ def system(R, rng, tier):
                     R.violations.append({"what": "format custom: rendered fields differ from the JSON records", "input": inp,
                                          "observed": {"got": got[:2], "expected": exp[:2]}, "signature": None})
         import shutil
-        shutil.rmtree(sub, ignore_errors=True)
+        shutil.rmtree(top, ignore_errors=True)
+
+
+def baseline_html(R, rng, tier):
+    """The candidate listing of a scan against a baseline (a different branch of the formatters) escapes source text as well."""
+    d = os.path.join(impl.scratch(), "c09b")
+    os.makedirs(d, exist_ok=True)
+    f = os.path.join(d, "m&m.py")
+    evil = "assert zz  # <script>alert(1)</script> <img src=x onerror=y> \"q\" 'a' &amp;\n"
+    open(f, "w").write(evil)
+    basef = os.path.join(d, "base.json")
+    climain.run_main(["-q", "-f", "json", "-o", basef, f])
+    open(f, "w").write(evil + "zz_pad = '<b>'\n" + evil)
+    for fmt in ("html", "json", "txt"):
+        out = os.path.join(d, "b.out")
+        if os.path.exists(out):
+            os.remove(out)
+        r = climain.run_main(["-q", "-b", basef, "-f", fmt, "-o", out, f])
+        R.case(("baseline", fmt), nontrivial=True, sample={"format": fmt, "exit": r["exit"], "exception": r["exception"]})
+        R.count("format:baseline-" + fmt)
+        if r["exception"]:
+            R.violations.append({"what": "format %s with a baseline: no report (%s)" % (fmt, r["exception"]), "input": {"source": evil}, "observed": (r["traceback"] or "")[-300:], "signature": None})
+            continue
+        text = open(out, encoding="utf-8").read()
+        pr = reports.parse(fmt, text)
+        if not pr["wellformed"]:
+            R.violations.append({"what": "format %s with a baseline is not well-formed (%s)" % (fmt, pr.get("error")), "input": {"source": evil}, "observed": text[:300], "signature": None})
+        if fmt == "html" and ("<script>alert(1)</script>" in text or "<img src=x" in text):
+            R.violations.append({"what": "format html with a baseline: source text of a candidate excerpt is written without escaping", "input": {"source": evil},
+                                 "observed": text[text.find("<script>alert") - 80:text.find("<script>alert") + 80], "signature": None})
 
 
 def run(R, replay=None):
@@ -222,4 +258,5 @@ def run(R, replay=None):
               "record with the JSON report; grouping, skipped-file listing, SARIF regions, HTML escaping; non-trivial = non-empty text")
     unit(R, rng, R.tier)
     system(R, rng, R.tier)
+    baseline_html(R, rng, R.tier)
     R.disagreements_checked = R.evaluations
